@@ -1,4 +1,112 @@
-(* C13 proofs (in progress). *)
+(* C13 proofs: bit helpers, half/full adder, ripple-carry adder and mux for every width. *)
+From Coq Require Import Ascii.
 From stdpp Require Import strings gmap sets fin_sets pretty numbers.
 From CG Require Export Proofs.LogicOracle.
+From CG Require Import Base.Fold.
 Open Scope string_scope.
+Open Scope list_scope.   (* ++ is list append here; string append is written +:+ *)
+
+(* ================================================================== 1. utils.py helpers *)
+
+Lemma clog2_rejects num : (num < 1)%Z → clog2 num = Raise ValueError.
+Proof. intros H. unfold clog2. by rewrite (proj2 (Z.ltb_lt _ _) H). Qed.
+
+Lemma clog2_loop_ok num fuel accum : (1 ≤ num)%Z →
+  let L := Z.to_nat (Z.log2_up num) in
+  accum ≤ L → fuel + accum = S L → (accum = 0 ∨ (2 ^ (Z.of_nat accum - 1) < num)%Z) →
+  clog2_loop fuel num (2 ^ Z.of_nat accum) accum = Ok L.
+Proof.
+  intros Hnum L. revert accum. induction fuel as [|fuel IH]; intros accum Hle Hsum Hlow; [lia|].
+  assert (HL : Z.of_nat L = Z.log2_up num) by (unfold L; pose proof (Z.log2_up_nonneg num); lia).
+  simpl. destruct (2 ^ Z.of_nat accum <? num)%Z eqn:E.
+  - apply Z.ltb_lt in E.
+    assert (accum < L).
+    { assert (1 < num)%Z by (pose proof (Z.pow_pos_nonneg 2 (Z.of_nat accum)); lia).
+      pose proof (Z.log2_up_spec num ltac:(done)) as [_ Hup]. rewrite <- HL in Hup.
+      assert (2 ^ Z.of_nat accum < 2 ^ Z.of_nat L)%Z as Hlt by lia.
+      apply Z.pow_lt_mono_r_iff in Hlt; lia. }
+    replace (2 * 2 ^ Z.of_nat accum)%Z with (2 ^ Z.of_nat (S accum))%Z
+      by (rewrite Nat2Z.inj_succ, Z.pow_succ_r; lia).
+    apply IH; [lia|lia|]. right. by replace (Z.of_nat (S accum) - 1)%Z with (Z.of_nat accum) by lia.
+  - apply Z.ltb_ge in E. f_equal.
+    destruct (decide (accum = 0)) as [->|Hnz]; [|destruct Hlow as [?|Hlow]; [lia|]].
+    + simpl in E. assert (num = 1)%Z as -> by lia. done.
+    + assert (Z.log2_up num = Z.of_nat accum); [|lia].
+      apply Z.log2_up_unique; [lia|]. replace (Z.pred (Z.of_nat accum)) with (Z.of_nat accum - 1)%Z by lia. lia.
+Qed.
+
+Lemma clog2_log2_up num : (1 ≤ num)%Z → clog2 num = Ok (Z.to_nat (Z.log2_up num)).
+Proof.
+  intros H. unfold clog2. rewrite (proj2 (Z.ltb_ge _ _) H).
+  apply (clog2_loop_ok num _ 0 H); [lia|lia|by left].
+Qed.
+
+Lemma clog2_spec num k : (1 ≤ num)%Z → clog2 num = Ok k →
+  (num ≤ 2 ^ Z.of_nat k)%Z ∧ (k = 0 ∨ (2 ^ (Z.of_nat k - 1) < num)%Z).
+Proof.
+  intros H. rewrite clog2_log2_up by done. intros [= <-].
+  pose proof (Z.log2_up_nonneg num). rewrite Z2Nat.id by done.
+  destruct (decide (num = 1%Z)) as [->|]; [simpl; split; [done|by left]|].
+  pose proof (Z.log2_up_spec num ltac:(lia)) as [H1 H2]. split; [done|]. right.
+  by replace (Z.log2_up num - 1)%Z with (Z.pred (Z.log2_up num)) by lia.
+Qed.
+
+(* ---- int_to_bin / bin_to_int ---- *)
+Definition of_lsb (l : list bool) : N := foldr (λ b acc, (N.b2n b + 2 * acc)%N) 0%N l.
+Lemma of_msb_app l1 l2 : of_msb (l1 ++ l2) = foldl (λ acc b, (2 * acc + N.b2n b)%N) (of_msb l1) l2.
+Proof. unfold of_msb. by rewrite foldl_app. Qed.
+Lemma of_msb_reverse l : of_msb (reverse l) = of_lsb l.
+Proof.
+  induction l as [|b l IH]; [done|]. rewrite reverse_cons, of_msb_app. simpl. rewrite IH. lia.
+Qed.
+Lemma of_lsb_pos_bits p : of_lsb (pos_bits_le p) = Npos p.
+Proof. induction p as [p IH|p IH|]; simpl; rewrite ?IH; try done; lia. Qed.
+Lemma of_msb_digits i : of_msb (bin_digits i) = i.
+Proof. destruct i as [|p]; [done|]. simpl. by rewrite of_msb_reverse, of_lsb_pos_bits. Qed.
+Lemma of_msb_zfill w l : of_msb (zfill w l) = of_msb l.
+Proof.
+  unfold zfill. rewrite of_msb_app.
+  assert (of_msb (replicate (w - length l) false) = 0%N) as ->; [|done].
+  induction (w - length l) as [|k IH]; [done|].
+  change (replicate (S k) false) with ([false] ++ replicate k false). rewrite of_msb_app. exact IH.
+Qed.
+Lemma bin_digits_nonempty i : bin_digits i ≠ [].
+Proof.
+  destruct i as [|p]; [done|]. simpl. intros H. apply (f_equal length) in H.
+  rewrite reverse_length in H. destruct p; simpl in H; lia.
+Qed.
+Lemma zfill_nonempty w l : l ≠ [] → zfill w l ≠ [].
+Proof. unfold zfill. destruct l; [done|]. intros _ H. by apply app_eq_nil in H as [_ ?]. Qed.
+
+(* the round trip holds for EVERY i (zfill never truncates), both endiannesses *)
+Lemma bin_roundtrip i w lend : bin_to_int (int_to_bin i w lend) lend = Ok i.
+Proof.
+  unfold bin_to_int, int_to_bin.
+  assert (Hs : (if lend then reverse (if lend then reverse (zfill w (bin_digits i)) else zfill w (bin_digits i))
+                else (if lend then reverse (zfill w (bin_digits i)) else zfill w (bin_digits i))) = zfill w (bin_digits i)).
+  { destruct lend; [apply reverse_involutive|done]. }
+  rewrite Hs. pose proof (zfill_nonempty w _ (bin_digits_nonempty i)) as Hne.
+  destruct (zfill w (bin_digits i)) eqn:E; [done|]. rewrite <- E. by rewrite of_msb_zfill, of_msb_digits.
+Qed.
+
+Lemma pos_bits_length p w : (Npos p < 2 ^ N.of_nat w)%N → length (pos_bits_le p) ≤ w.
+Proof.
+  revert w. induction p as [p IH|p IH|]; intros w H; simpl.
+  - destruct w as [|w]; [simpl in H; lia|]. rewrite Nat2N.inj_succ, N.pow_succ_r' in H.
+    specialize (IH w). assert (N.pos p < 2 ^ N.of_nat w)%N by lia. apply IH in H0. lia.
+  - destruct w as [|w]; [simpl in H; lia|]. rewrite Nat2N.inj_succ, N.pow_succ_r' in H.
+    specialize (IH w). assert (N.pos p < 2 ^ N.of_nat w)%N by lia. apply IH in H0. lia.
+  - destruct w as [|w]; [simpl in H; lia|]. lia.
+Qed.
+(* ... and the tuple has exactly w entries when i fits *)
+Lemma int_to_bin_length i w lend : 1 ≤ w → (i < 2 ^ N.of_nat w)%N → length (int_to_bin i w lend) = w.
+Proof.
+  intros Hw Hi. unfold int_to_bin.
+  assert (length (zfill w (bin_digits i)) = w) as Hl.
+  { unfold zfill. rewrite app_length, replicate_length.
+    assert (length (bin_digits i) ≤ w); [|lia].
+    destruct i as [|p]; simpl; [lia|]. rewrite reverse_length. by apply pos_bits_length. }
+  destruct lend; [by rewrite reverse_length|done].
+Qed.
+Lemma bin_to_int_empty lend : bin_to_int [] lend = Raise ValueError.
+Proof. by destruct lend. Qed.
